@@ -432,7 +432,10 @@ Definition lexer_action (a : action) (l : lexer) (c : ctx) : act_res :=
           | Some (StartTagO _ _ _ _ _) => b_set_tps (b_set_attr b (Some (mkA (mkR 0 0) (mkR 0 0) (mkR 0 0)))) (lpos l)
           | _ => b end)
   | A_finish_attr_name =>
-      ok (match b.(b_attr) with Some (mkA _ v _) => b_set_attr b (Some (mkA (part_range l) v (part_range l))) | None => b end)
+      (* the value of a (so far) valueless attribute is the empty range right after its name *)
+      ok (match b.(b_attr) with
+          | Some (mkA _ _ _) => let n := part_range l in b_set_attr b (Some (mkA n (mkR n.(re) n.(re)) n))
+          | None => b end)
   | A_finish_attr_value =>
       ok (match b.(b_attr) with
           | Some (mkA n _ r) =>
